@@ -6,7 +6,9 @@
 (* back to e ("same"), and whether e survived the serde exchange form      *)
 (* ("serde").  The specification parses T and P itself.                    *)
 (*   REJECT: P does not parse back to e (by the specification's parser or  *)
-(*           by the code's own), or the exchange form lost e               *)
+(*           by the code's own), or the exchange form lost e, or the       *)
+(*           structured form (ExprReply tokens joined by spaces) does not  *)
+(*           parse back to e                                               *)
 (*   SPECRT: design-level: the transcribed printer fails on e              *)
 (*   NOTE:   the code's text differs from the transcription (drift)        *)
 (***************************************************************************)
@@ -27,6 +29,12 @@ Verdict(ev, i) ==
             /\ \E p \in {ParseAll(ev.printed)} :
                  IF p.done /\ AstEq(p.e, es) /\ ev.same /\ ev.serde = "ok" THEN TRUE
                  ELSE PrintT(<<"REJECT", i, ToJson(Print(es))>>)
+            \* the structured form (ExprReply: the same walk emitting a token list), read back token by token
+            /\ IF "rprinted" \notin DOMAIN ev \/ ~ev.rok THEN TRUE
+               ELSE IF ~Supported(ev.rprinted) THEN PrintT(<<"UNSUPPORTED", i>>)
+               ELSE \E p \in {ParseAll(ev.rprinted)} :
+                      IF p.done /\ AstEq(p.e, es) /\ ev.rsame THEN TRUE
+                      ELSE PrintT(<<"REJECT", i, "structured form">>)
 
 Init == l = 1
 Next == l <= NRec /\ Verdict(Rec[l], l) /\ l' = l + 1
